@@ -229,7 +229,19 @@ def _sid(b, op_or_origin, is_origin=False):
     o = op_or_origin if is_origin else b.origin(op_or_origin, through_calls=("deref", "deref_mut", "as_ref", "as_slice", "borrow"))
     l = _local_of(o)
     if l is not None:
+        # `let bytes = s.as_bytes()`: the byte view has the length of the string it views - one sequence for length facts
+        ds = [d for d in b.defs().get(l, ()) if d[2] == "call"]
+        if len(ds) == 1 and len(b.defs().get(l, ())) == 1 and ds[0][3]["callee"].get("name") in ("as_bytes", "as_str") and ds[0][3]["args"]:
+            inner = b.origin(ds[0][3]["args"][0], through_calls=("deref",))
+            il = _local_of(inner)
+            if il is not None:
+                return "local%d" % il
         return "local%d" % l
+    if o[0] == "call" and o[1].callee.get("name") in ("as_bytes", "as_str") and o[1].args:
+        inner = b.origin(o[1].args[0], through_calls=("deref",))
+        il = _local_of(inner)
+        if il is not None:
+            return "local%d" % il
     if o[0] == "call":
         return "%s@bb%d" % (mir.o_str(o), o[1].bb)   # two calls of the same function are two sequences
     return mir.o_str(o)
